@@ -857,7 +857,7 @@ def prune(rng, ps):
     return ["aproblem"] + [[k] + v for k, v in secs.items()]
 
 
-COUNTS = {"quick": {"examples": 4, "mini": 16, "medium": 2, "w": 250},
+COUNTS = {"quick": {"examples": 5, "mini": 24, "medium": 3, "w": 250},
           "thorough": {"examples": 10 ** 6, "mini": 110, "medium": 16, "w": 4000}}
 
 
@@ -1228,16 +1228,25 @@ def shrink(payload):
 
 
 MANIFEST = {
-    "level_text": ("Lean 4 theorems (Props/C19.lean) about an executable model of the ANML writer (Core/AnmlPrint.lean: problem syntax "
-                   "-> token list, laid out as ANMLWriter._write_problem / ConverterToANMLString do) and of the reader on the writer's "
-                   "fragment (Core/AnmlRead.lean: tokens -> statements -> problem): for every problem of the fragment and every valid, "
-                   "injective renaming, reading the printed tokens succeeds and returns the renamed problem with n-ary operators "
-                   "re-associated to binary ones and constants re-spelt, which has the same reference denotation. The models are tied to "
-                   "the code by a differential correspondence check (writer tokens; reader result) and the property itself is evaluated "
-                   "on the real writer/reader/simulator/validator for every case."),
-    "level_note": ("Partial: pyparsing and anml_grammar.py are represented by a hand-written parser of the writer's output forms only; "
-                   "the Simplifier (C11), the name mangling (C38) and Problem.initial_values are parameters. Trusted: Lean kernel, the "
-                   "correspondence harness (tokeniser, renderer, encoders)."),
+    "level_text": ("Lean 4 theorems (Props/C19.lean) about an executable model of the ANML writer (Core/AnmlPrint.lean: problem -> token "
+                   "list, statement by statement as ANMLWriter._write_problem / ConverterToANMLString lay it out) and of the reader "
+                   "(Core/AnmlRead.lean: tokens -> statement trees -> problem, the second stage mirroring anml_reader.py): `roundtrip` "
+                   "proves, for EVERY problem of the ANML fragment (type hierarchy, static/non-static fluents of Boolean / bounded "
+                   "numeric / user types, objects, expanded initial values, instantaneous and durative actions with quantified "
+                   "conditions over point/open/closed intervals, conditional / universal / increase / decrease effects at delayed "
+                   "timings, timed effects and goals, state invariants) and EVERY renaming that gives different items different names "
+                   "(C38), that reading the printed tokens succeeds and returns the renamed problem re-spelt with binary operators and "
+                   "unsigned literals; `respell_den` proves that this re-spelling has the same reference denotation under every "
+                   "interpretation; `static_preserved` that constant/fluent declarations are kept; the parser fuel (number of tokens "
+                   "+ 1) is proved sufficient. The models are tied to the code by a differential correspondence (the real writer's "
+                   "tokens; the real reader's result on the same text) and the property itself (types, objects, fluents, initial "
+                   "state, bisimulation with the real simulator / verdicts of the real time-triggered validator) is evaluated on "
+                   "the real writer and reader for every round-trip case, including the bundled example problems."),
+    "level_note": ("Partial: pyparsing and anml_grammar.py are represented by a hand-written recursive-descent parser of the forms the "
+                   "writer emits (stage 1 of Core/AnmlRead.lean), tied by sampling only; the Simplifier (applied by the real writer "
+                   "before printing and by the real reader after parsing; C11), the concrete renaming (C38) and "
+                   "Problem.initial_values are parameters of the model. Trusted: Lean kernel, axioms propext / Classical.choice / "
+                   "Quot.sound, the correspondence harness (tokeniser, renderer, encoders). Needs notes/patches/C19-*.patch in /repo."),
     "technique": "Lean 4 proof of print/read inversion on an executable model + model/code correspondence + behavioural oracle",
     "design_ref": "DESIGN.md §5 C18/C19/C21",
 }
